@@ -3,6 +3,11 @@
 // CommandLineTestRunner(ac, av, &registry).runAllTestsMain() (console captured through PlatformSpecificFPuts).
 // Scenario:  <cli> <rethrow> <filter> <runign> <repeat> <ntests> { <ignored> <sel> <line> <setup> <body> <teardown> <pre> <post> }
 //            stmt list = <n> { <base> | :r <cond> <k> <base> <base> } ; base = :n | :c | :x <file> <line> | :j <file> <line> | :s | :o
+//                                                                      | :k :<kind> <agree> <file> <line>
+//            ":k" = a check through one assert entry point (CKNAMES below: the member functions of UtestShell with the current terminator,
+//            the C-interface functions of TestHarness_c.cpp, the CHECK_COMPARE_LOCATION macro), handed the location FILES[file]:line and
+//            operands that satisfy the asserted relation (agree = 1) or do not (agree = 0); the operands are a function of (kind, agree,
+//            line): odd lines take the NULL-operand branches of the string / binary / pointer functions (doCheckK).
 //            pre/post = <n> { <line> | :r <cond> <k> <line> } ; cond = :eq | :ne | :lt | :ge
 //            ":r c k A B" behaves as A in the runs of this test whose number (0,1,2,... = static counter in the test) satisfies c k, as B in
 //            the others; a conditional plugin line is reported only in the matching runs (static counter in the plugin).
@@ -12,6 +17,7 @@
 #include <map>
 #include <stdexcept>
 #include <unistd.h>
+#include <climits>
 #define private public
 #define protected public
 #include "CppUTest/TestHarness.h"
@@ -28,7 +34,7 @@ using namespace hl;
 
 extern int PlatformSpecificVerifJumpDepth();
 
-struct Base { char kind; int file; size_t line; };
+struct Base { char kind; int file; size_t line; int ck; bool agree; };
 struct Cond { char op; unsigned long long k; };              // op 0 = unconditional, else 'e' == , 'n' != , 'l' < , 'g' >=
 static bool holds(const Cond& c, unsigned long long run)
 {
@@ -62,6 +68,80 @@ static void logEvent(int test, int phase, int idx)
     Entry e; e.kind = 'E'; e.a = test; e.b = phase; e.c = idx; e.d = PlatformSpecificVerifJumpDepth(); gLog.push_back(e);
 }
 
+// ---------------------------------------------------------------- check kinds
+enum CK { K_TRUE, K_CSTREQ, K_CSTRNEQ, K_NOCASEEQ, K_CONTAINS, K_NOCASECONTAINS, K_LONGS, K_ULONGS, K_LLONGS, K_ULLONGS, K_SBYTES, K_PTRS,
+          K_FPTRS, K_DOUBLES, K_EQUALS, K_BINARY, K_BINARY0, K_BITS, K_COMPARE, K_FAIL,
+          C_BOOL, C_INT, C_UINT, C_LONG, C_ULONG, C_LLONG, C_ULLONG, C_REAL, C_CHAR, C_UBYTE, C_SBYTE, C_STRING, C_POINTER, C_MEMCMP,
+          C_MEMCMP0, C_BITS, C_FAILTEXT, C_FAIL, C_CHECK, M_COMPARE, CK_COUNT };
+static const char* const CKNAMES[CK_COUNT] = {
+    "true", "cstreq", "cstrneq", "nocaseeq", "contains", "nocasecontains", "longs", "ulongs", "llongs", "ullongs", "sbytes", "ptrs",
+    "fptrs", "doubles", "equals", "binary", "binary0", "bits", "compare", "fail",
+    "c_bool", "c_int", "c_uint", "c_long", "c_ulong", "c_llong", "c_ullong", "c_real", "c_char", "c_ubyte", "c_sbyte", "c_string", "c_pointer",
+    "c_memcmp", "c_memcmp0", "c_bits", "c_failtext", "c_fail", "c_check", "m_compare" };
+static void fnA() {}
+static void fnB() { gMsg[sizeof gMsg - 1] = 0; }     // a different body: the two functions must not be folded into one address
+static int gPa, gPb;
+
+// Calls the real function of kind ck with the location file:line and operands that make it pass (agree) or fail (!agree).
+// The C++ entry points are called with their default terminator argument (getCurrentTestTerminator(): the harness restores the
+// default NormalTestTerminator before every scenario), exactly as the CHECK macros of UtestMacros.h do.
+static void doCheckK(int ck, bool agree, const char* file, size_t line)
+{
+    UtestShell* u = UtestShell::getCurrent();
+    const bool v = (line & 1) != 0, w = (line & 2) != 0;        // operand variant
+    static const char s1[] = "abcde", s1copy[] = "abcde", s2[] = "abdde", up1[] = "ABCDE", up2[] = "ABDDE";
+    static const char pre1[] = "abcXX", pre1b[] = "abcYY", pre2[] = "abdYY";
+    static const unsigned char b1[5] = {1, 2, 0, 4, 5}, b1copy[5] = {1, 2, 0, 4, 5}, b2[5] = {1, 2, 0, 4, 6};
+    // (expected, actual) for the functions that treat NULL operands: both NULL passes, one NULL fails
+    #define PICK(T, eq_e, eq_a, ne_e, ne_a) \
+        const T* e = agree ? (v ? (const T*)NULLPTR : (eq_e)) : (v ? (w ? (const T*)NULLPTR : (ne_e)) : (ne_e)); \
+        const T* a = agree ? (v ? (const T*)NULLPTR : (eq_a)) : (v ? (w ? (ne_a) : (const T*)NULLPTR) : (ne_a));
+    switch (ck) {
+    case K_TRUE: u->assertTrue(agree, "CHECK", "cond", gMsg, file, line); break;
+    case K_CSTREQ: { PICK(char, s1, s1copy, s1, s2) u->assertCstrEqual(e, a, gMsg, file, line); break; }
+    case K_CSTRNEQ: { PICK(char, pre1, pre1b, pre1, pre2) u->assertCstrNEqual(e, a, 3, gMsg, file, line); break; }
+    case K_NOCASEEQ: { PICK(char, up1, s1, up2, s1) u->assertCstrNoCaseEqual(e, a, gMsg, file, line); break; }
+    case K_CONTAINS: { PICK(char, "bcd", s1, "bdd", s1) u->assertCstrContains(e, a, gMsg, file, line); break; }
+    case K_NOCASECONTAINS: { PICK(char, "BCD", s1, "BDD", s1) u->assertCstrNoCaseContains(e, a, gMsg, file, line); break; }
+    case K_LONGS: u->assertLongsEqual(v ? LONG_MIN : -5L, agree ? (v ? LONG_MIN : -5L) : (v ? LONG_MAX : 5L), gMsg, file, line); break;
+    case K_ULONGS: u->assertUnsignedLongsEqual(v ? ULONG_MAX : 5UL, agree ? (v ? ULONG_MAX : 5UL) : 6UL, gMsg, file, line); break;
+    case K_LLONGS: u->assertLongLongsEqual(v ? LLONG_MIN : -5LL, agree ? (v ? LLONG_MIN : -5LL) : 5LL, gMsg, file, line); break;
+    case K_ULLONGS: u->assertUnsignedLongLongsEqual(v ? ULLONG_MAX : 5ULL, agree ? (v ? ULLONG_MAX : 5ULL) : 6ULL, gMsg, file, line); break;
+    case K_SBYTES: u->assertSignedBytesEqual((signed char)-1, agree ? (signed char)-1 : (signed char)1, gMsg, file, line); break;
+    case K_PTRS: { PICK(int, &gPa, &gPa, &gPa, &gPb) u->assertPointersEqual(e, a, gMsg, file, line); break; }
+    case K_FPTRS: u->assertFunctionPointersEqual(v && agree ? (void (*)())NULLPTR : fnA, agree ? (v ? (void (*)())NULLPTR : fnA) : fnB, gMsg, file, line); break;
+    case K_DOUBLES: u->assertDoublesEqual(1.0, agree ? 1.05 : 1.5, 0.1, gMsg, file, line); break;
+    case K_EQUALS: u->assertEquals(!agree, "exp", "act", gMsg, file, line); break;
+    case K_BINARY: { PICK(unsigned char, b1, b1copy, b1, b2) u->assertBinaryEqual(e, a, 5, gMsg, file, line); break; }
+    case K_BINARY0: { PICK(unsigned char, b1, b1copy, b1, b2) u->assertBinaryEqual(e, a, 0, gMsg, file, line); break; }
+    case K_BITS: u->assertBitsEqual(0x5AUL, agree ? 0xF5AUL : 0x5BUL, 0xFFUL, 2, gMsg, file, line); break;
+    case K_COMPARE: u->assertCompare(agree, "CHECK_COMPARE", "1 < 2", gMsg, file, line); break;
+    case K_FAIL: u->fail(gMsg, file, line); break;
+    case C_BOOL: CHECK_EQUAL_C_BOOL_LOCATION(1, agree ? 2 : 0, gMsg, file, line); break;
+    case C_INT: CHECK_EQUAL_C_INT_LOCATION(-5, agree ? -5 : 5, gMsg, file, line); break;
+    case C_UINT: CHECK_EQUAL_C_UINT_LOCATION(5u, agree ? 5u : 6u, gMsg, file, line); break;
+    case C_LONG: CHECK_EQUAL_C_LONG_LOCATION(-5L, agree ? -5L : 5L, gMsg, file, line); break;
+    case C_ULONG: CHECK_EQUAL_C_ULONG_LOCATION(5UL, agree ? 5UL : 6UL, gMsg, file, line); break;
+    case C_LLONG: CHECK_EQUAL_C_LONGLONG_LOCATION(-5LL, agree ? -5LL : 5LL, gMsg, file, line); break;
+    case C_ULLONG: CHECK_EQUAL_C_ULONGLONG_LOCATION(5ULL, agree ? 5ULL : 6ULL, gMsg, file, line); break;
+    case C_REAL: CHECK_EQUAL_C_REAL_LOCATION(1.0, agree ? 1.05 : 1.5, 0.1, gMsg, file, line); break;
+    case C_CHAR: CHECK_EQUAL_C_CHAR_LOCATION('a', agree ? 'a' : 'b', gMsg, file, line); break;
+    case C_UBYTE: CHECK_EQUAL_C_UBYTE_LOCATION(200, agree ? 200 : 201, gMsg, file, line); break;
+    case C_SBYTE: CHECK_EQUAL_C_SBYTE_LOCATION(-3, agree ? -3 : 3, gMsg, file, line); break;
+    case C_STRING: { PICK(char, s1, s1copy, s1, s2) CHECK_EQUAL_C_STRING_LOCATION(e, a, gMsg, file, line); break; }
+    case C_POINTER: { PICK(int, &gPa, &gPa, &gPa, &gPb) CHECK_EQUAL_C_POINTER_LOCATION(e, a, gMsg, file, line); break; }
+    case C_MEMCMP: { PICK(unsigned char, b1, b1copy, b1, b2) CHECK_EQUAL_C_MEMCMP_LOCATION(e, a, 5, gMsg, file, line); break; }
+    case C_MEMCMP0: { PICK(unsigned char, b1, b1copy, b1, b2) CHECK_EQUAL_C_MEMCMP_LOCATION(e, a, 0, gMsg, file, line); break; }
+    case C_BITS: CHECK_EQUAL_C_BITS_LOCATION(0x5Au, agree ? 0xF5Au : 0x5Bu, 0xFFu, 2, gMsg, file, line); break;
+    case C_FAILTEXT: FAIL_TEXT_C_LOCATION(gMsg, file, line); break;
+    case C_FAIL: FAIL_C_LOCATION(file, line); break;
+    case C_CHECK: CHECK_C_LOCATION(agree ? 1 : 0, "cond", gMsg, file, line); break;
+    case M_COMPARE: CHECK_COMPARE_LOCATION(agree ? 1 : 3, <, 2, gMsg, file, line); break;
+    default: fprintf(stderr, "harness: check kind %d\n", ck); exit(3);
+    }
+    #undef PICK
+}
+
 static void execPhase(TestDef* d, int ph, unsigned long long run)
 {
     std::vector<Stmt>& v = d->ph[ph];
@@ -74,6 +154,7 @@ static void execPhase(TestDef* d, int ph, unsigned long long run)
         case 'c': UtestShell::getCurrent()->assertTrue(true, "CHECK", "true", NULLPTR, FILES[s.file], s.line); break;
         case 'x': UtestShell::getCurrent()->fail(gMsg, FILES[s.file], s.line); break;
         case 'j': FAIL_TEXT_C_LOCATION(gMsg, FILES[s.file], s.line); break;
+        case 'k': doCheckK(s.ck, s.agree, FILES[s.file], s.line); break;
 #if CPPUTEST_HAVE_EXCEPTIONS
         case 's': throw std::runtime_error("boom");
         case 'o': throw 42;
@@ -148,7 +229,10 @@ static void parseFailures(const std::string& txt, Out& o)
             unsigned long long line = c == std::string::npos ? 0 : strtoull(loc.c_str() + c + 1, nullptr, 10);
             size_t us = test.rfind('_');
             unsigned long long ti = us == std::string::npos ? 0xffff : strtoull(test.c_str() + us + 1, nullptr, 10);
-            int kind = msg.compare(0, 2, "VM") == 0 ? 0 : msg.compare(0, 2, "VP") == 0 ? 3 : 1;
+            // what kind of record: a check of a scripted statement (its text, bare or behind "Message: "; FAIL_C_LOCATION has no text),
+            // the plugin's, or (anything else; the wording is not the property's business) an escaped exception's
+            int kind = (msg.compare(0, 2, "VM") == 0 || msg.compare(0, 11, "Message: VM") == 0 || msg.empty()) ? 0
+                     : msg.compare(0, 2, "VP") == 0 ? 3 : 1;
             recs.push_back(hx(ti) + " " + hx((unsigned long long)fileId(file)) + " " + hx(line) + " " + hx((unsigned long long)kind));
             test.clear();
             q = me;
@@ -197,8 +281,14 @@ static Cond readCond(Toks& t)
 }
 static Base readBase(const std::string& kind, Toks& t, bool& needExc)
 {
-    Base s; s.kind = kind[0]; s.file = 0; s.line = 0;
-    if (s.kind == 'x' || s.kind == 'j') { s.file = t.n(); s.line = (size_t)t.u(); if (s.file < 0 || s.file > 1) s.file = 1; }
+    Base s; s.kind = kind[0]; s.file = 0; s.line = 0; s.ck = 0; s.agree = true;
+    if (s.kind == 'k') {
+        std::string name = t.sym(); s.ck = -1;
+        for (int k = 0; k < CK_COUNT; k++) if (name == CKNAMES[k]) s.ck = k;
+        if (s.ck < 0) { fprintf(stderr, "harness: check kind %s\n", name.c_str()); exit(3); }
+        s.agree = t.u() != 0;
+    }
+    if (s.kind == 'x' || s.kind == 'j' || s.kind == 'k') { s.file = t.n(); s.line = (size_t)t.u(); if (s.file < 0 || s.file > 1) s.file = 1; }
     if (s.kind == 's' || s.kind == 'o') needExc = true;
     return s;
 }
